@@ -30,6 +30,10 @@ fn build(t: &[&str]) -> String {
         .generate_crcs(t[5] == "1")
         .compress_tables(t[6] == "1")
         .default_compression(num(t[7]) as u8);
+    if t[4] == "N" {
+        // sector checksums without an (attributes) file
+        b = b.attributes_option(AttributesOption::None);
+    }
     if t[8] != "-" {
         for e in t[8].split(',') {
             let p: Vec<&str> = e.split(':').collect();
